@@ -1,3 +1,302 @@
 package main
 
-func registerStrings(e *Engine) {}
+import (
+	"go/types"
+	"fmt"
+	"strings"
+
+	"golang.org/x/tools/go/ssa"
+)
+
+// Assumed contracts of strings/strconv/unicode/math functions over the string abstraction of DESIGN §3.
+// Each entry is listed in the evidence of the properties that used it (FnCtx.assumed).
+
+func callArg(site ssa.Instruction, i int) ssa.Value {
+	if c, ok := site.(ssa.CallInstruction); ok && i < len(c.Common().Args) {
+		return c.Common().Args[i]
+	}
+	return nil
+}
+
+func (s *State) used(name string) { s.c.assumed["library contract assumed: "+name] = true }
+
+// array-level predicates over the backing array of a []string
+func (s *State) declArrPreds() {
+	for _, p := range []string{"allNoNL", "allWf", "allClean"} {
+		s.c.declare(p, fmt.Sprintf("(declare-fun %s ((Array Int Str)) Bool)", p))
+	}
+}
+
+func (s *State) strElems(base string) string {
+	key := elemKey(strT, nil, "")
+	return sel(s.heapGet(key, arrSort(sInt, arrSort(sInt, sStr))), base)
+}
+
+func (s *State) newStrSlice(n string, hint string) (Val, string) {
+	b := s.newRef()
+	key := elemKey(strT, nil, "")
+	srt := arrSort(sInt, arrSort(sInt, sStr))
+	inner := s.c.freshConst(hint, arrSort(sInt, sStr))
+	s.heapSet(key, srt, sto(s.heapGet(key, srt), b, inner))
+	return Val{T: strSliceT, Sl: &SliceV{b, "0", n, n}}, inner
+}
+
+func (s *State) freshStr(hint string) Val {
+	r := s.freshVal(strT, hint)
+	s.strBasics(r.S)
+	return r
+}
+
+func registerStrings(e *Engine) {
+	L := e.lib
+	L["strings.Count"] = func(s *State, site ssa.Instruction, a []Val) []Val {
+		s.used("strings.Count(s, \"\\n\") == nl(s)")
+		if sep, ok := constString(callArg(site, 1)); ok && sep == "\n" {
+			s.strBasics(a[0].S)
+			return []Val{{T: intT, S: s.define("cnt", sInt, app("nl", a[0].S))}}
+		}
+		r := s.freshVal(intT, "count")
+		s.assume(app("<=", "0", r.S))
+		return []Val{r}
+	}
+	L["strings.Split"] = func(s *State, site ssa.Instruction, a []Val) []Val {
+		s.declArrPreds()
+		s.strBasics(a[0].S)
+		sep, ok := constString(callArg(site, 1))
+		if ok && sep == "\n" {
+			s.used("strings.Split(s, \"\\n\"): nl(s)+1 newline-free pieces; wf/clean pieces when s is wf/clean")
+			n := s.define("spl", sInt, app("+", app("nl", a[0].S), "1"))
+			v, inner := s.newStrSlice(n, "split")
+			s.assume(app("allNoNL", inner))
+			s.assume(implies(app("wf", a[0].S), app("allWf", inner)))
+			s.assume(implies(app("clean", a[0].S), app("allClean", inner)))
+			s.c.declare("joinNL", "(declare-fun joinNL ((Array Int Str) Int Int) Str)")
+			s.assume(eq(app("joinNL", inner, "0", n), a[0].S))
+			return []Val{v}
+		}
+		n := s.c.freshConst("spl", sInt)
+		s.assume(app("<=", "1", n))
+		v, _ := s.newStrSlice(n, "split")
+		return []Val{v}
+	}
+	L["strings.SplitN"] = func(s *State, site ssa.Instruction, a []Val) []Val {
+		s.used("strings.SplitN(s, sep, n): between 1 and n pieces (n > 0), each a substring of s")
+		s.declArrPreds()
+		n := s.c.freshConst("spln", sInt)
+		s.assume(and(app("<=", "1", n), implies(app(">", a[2].S, "0"), app("<=", n, a[2].S))))
+		v, inner := s.newStrSlice(n, "splitn")
+		s.assume(implies(app("clean", a[0].S), app("allClean", inner)))
+		s.assume(implies(app("noNL", a[0].S), app("allNoNL", inner)))
+		return []Val{v}
+	}
+	L["strings.Join"] = func(s *State, site ssa.Instruction, a []Val) []Val {
+		s.declArrPreds()
+		r := s.freshStr("join")
+		xs := a[0]
+		if xs.Sl == nil {
+			return []Val{{T: strT, S: "emp"}}
+		}
+		inner := s.strElems(xs.Sl.Base)
+		s.assume(implies(eq(xs.Sl.Len, "0"), eq(r.S, "emp")))
+		sep, ok := constString(callArg(site, 1))
+		if ok {
+			s.used("strings.Join(xs, sep): nl(result) == (len-1)*nl(sep) for newline-free xs; wf/clean preserved")
+			k := strings.Count(sep, "\n")
+			gaps := ite(app(">=", xs.Sl.Len, "1"), app("-", xs.Sl.Len, "1"), "0")
+			s.assume(implies(app("allNoNL", inner), eq(app("nl", r.S), app("*", fmt.Sprint(k), gaps))))
+			okc, _ := refCells(sep)
+			if okc {
+				s.assume(implies(app("allWf", inner), app("wf", r.S)))
+			}
+			if refClean(sep) {
+				s.assume(implies(app("allClean", inner), app("clean", r.S)))
+			}
+			if sep == "\n" {
+				s.c.declare("joinNL", "(declare-fun joinNL ((Array Int Str) Int Int) Str)")
+				s.assume(eq(r.S, app("joinNL", inner, xs.Sl.Off, app("+", xs.Sl.Off, xs.Sl.Len))))
+			}
+		}
+		return []Val{r}
+	}
+	L["strings.Repeat"] = func(s *State, site ssa.Instruction, a []Val) []Val {
+		s.used("strings.Repeat(s, n): requires n >= 0; additive measures scale by n; conjunctive predicates preserved")
+		n := a[1].S
+		s.oblige("lib-pre:strings.Repeat", site, s.c.ordinal(site, "lib-pre:strings.Repeat"), app("<=", "0", n), "strings.Repeat: negative Repeat count", false)
+		s.assume(app("<=", "0", n))
+		r := s.freshStr("repeat")
+		if lit, ok := constString(callArg(site, 0)); ok {
+			okc, vis := refCells(lit)
+			s.assume(eq(app("nl", r.S), app("*", fmt.Sprint(strings.Count(lit, "\n")), n)))
+			s.assume(eq(app("blen", r.S), app("*", fmt.Sprint(len(lit)), n)))
+			if okc {
+				s.assume(eq(app("vlen", r.S), app("*", fmt.Sprint(vis), n)))
+			}
+		} else {
+			s.assume(implies(eq(n, "1"), eq(r.S, a[0].S)))
+			s.assume(implies(eq(app("nl", a[0].S), "0"), eq(app("nl", r.S), "0")))
+		}
+		s.assume(implies(eq(n, "0"), eq(r.S, "emp")))
+		for _, p := range []string{"clean", "wf", "digits", "noCTL"} {
+			s.assume(implies(app(p, a[0].S), app(p, r.S)))
+		}
+		return []Val{r}
+	}
+	L["strings.Contains"] = func(s *State, site ssa.Instruction, a []Val) []Val {
+		if sub, ok := constString(callArg(site, 1)); ok && sub == "\n" {
+			s.used("strings.Contains(s, \"\\n\") == (nl(s) > 0)")
+			s.strBasics(a[0].S)
+			return []Val{{T: boolT, S: s.define("has", sBool, app(">", app("nl", a[0].S), "0"))}}
+		}
+		return []Val{s.freshVal(boolT, "contains")}
+	}
+	L["strings.HasPrefix"] = func(s *State, site ssa.Instruction, a []Val) []Val {
+		s.c.declare("hasPrefix", "(declare-fun hasPrefix (Str Str) Bool)")
+		s.used("strings.HasPrefix: uninterpreted relation; hasPrefix(s,p) implies blen(s) >= blen(p)")
+		r := s.define("hp", sBool, app("hasPrefix", a[0].S, a[1].S))
+		s.assume(implies(r, app(">=", app("blen", a[0].S), app("blen", a[1].S))))
+		return []Val{{T: boolT, S: r}}
+	}
+	L["strings.TrimSuffix"] = func(s *State, site ssa.Instruction, a []Val) []Val {
+		s.used("strings.TrimSuffix(s, \"\\n\"): removes at most one trailing newline; wf/clean preserved")
+		r := s.freshStr("trimsfx")
+		if sfx, ok := constString(callArg(site, 1)); ok && sfx == "\n" {
+			s.strBasics(a[0].S)
+			s.assume(or(eq(r.S, a[0].S), and(eq(app("nl", r.S), app("-", app("nl", a[0].S), "1")), eq(app("vlen", r.S), app("vlen", a[0].S)), eq(app("blen", r.S), app("-", app("blen", a[0].S), "1")))))
+			s.assume(implies(eq(app("nl", a[0].S), "0"), eq(r.S, a[0].S)))
+			for _, p := range []string{"clean", "wf"} {
+				s.assume(implies(app(p, a[0].S), app(p, r.S)))
+			}
+		}
+		return []Val{r}
+	}
+	L["strings.Trim"] = func(s *State, site ssa.Instruction, a []Val) []Val {
+		r := s.freshStr("trim")
+		if cut, ok := constString(callArg(site, 1)); ok && (cut == " \n" || cut == "\n") {
+			s.used("strings.Trim(s, \" \\n\"|\"\\n\"): removes bare spaces/newlines at both ends; wf/clean preserved, nl/vlen do not grow")
+			s.strBasics(a[0].S)
+			s.assume(app("<=", app("nl", r.S), app("nl", a[0].S)))
+			s.assume(app("<=", app("vlen", r.S), app("vlen", a[0].S)))
+			s.assume(app("<=", app("blen", r.S), app("blen", a[0].S)))
+			for _, p := range []string{"clean", "wf"} {
+				s.assume(implies(app(p, a[0].S), app(p, r.S)))
+			}
+			s.c.declare("linesOK", "(declare-fun linesOK (Str Int) Bool)")
+		}
+		return []Val{r}
+	}
+	L["strings.LastIndex"] = func(s *State, site ssa.Instruction, a []Val) []Val {
+		if sub, ok := constString(callArg(site, 1)); ok && sub == "\n" {
+			s.used("strings.LastIndex(s, \"\\n\"): -1 iff nl(s)==0; otherwise the prefix before it has nl(s)-1 newlines and keeps wf/clean")
+			s.c.declare("lastNL", "(declare-fun lastNL (Str) Int)")
+			s.c.declare("substr", "(declare-fun substr (Str Int Int) Str)")
+			x := a[0].S
+			s.strBasics(x)
+			r := s.define("li", sInt, app("lastNL", x))
+			s.assume(implies(eq(app("nl", x), "0"), eq(r, "(- 1)")))
+			pre := app("substr", x, "0", r)
+			s.assume(implies(app(">", app("nl", x), "0"), and(app("<=", "0", r), app("<", r, app("blen", x)),
+				eq(app("nl", pre), app("-", app("nl", x), "1")),
+				implies(app("wf", x), app("wf", pre)), implies(app("clean", x), app("clean", pre)))))
+			return []Val{{T: intT, S: r}}
+		}
+		r := s.freshVal(intT, "lastindex")
+		s.assume(and(app("<=", "(- 1)", r.S), app("<", r.S, app("blen", a[0].S))))
+		return []Val{r}
+	}
+	L["strings.ReplaceAll"] = func(s *State, site ssa.Instruction, a []Val) []Val {
+		r := s.freshStr("replaceall")
+		from, ok1 := constString(callArg(site, 1))
+		to, ok2 := constString(callArg(site, 2))
+		if ok1 && ok2 {
+			s.used(fmt.Sprintf("strings.ReplaceAll(s, %q, %q)", from, to))
+			x := a[0].S
+			s.strBasics(x)
+			switch {
+			case from == "\n" && !strings.Contains(to, "\n"):
+				s.assume(eq(app("nl", r.S), "0"))
+				if refClean(to) {
+					s.assume(implies(app("clean", x), app("clean", r.S)))
+				}
+			case !strings.Contains(from, "\n") && !strings.Contains(to, "\n"):
+				s.assume(eq(app("nl", r.S), app("nl", x)))
+				if refClean(to) {
+					s.assume(implies(app("clean", x), app("clean", r.S)))
+				}
+			}
+		}
+		return []Val{r}
+	}
+	L["strings.ToLower"] = func(s *State, site ssa.Instruction, a []Val) []Val {
+		s.used("strings.ToLower: clean, newline count and rune count preserved")
+		r := s.freshStr("lower")
+		x := a[0].S
+		s.assume(eq(app("nl", r.S), app("nl", x)))
+		s.assume(eq(app("vlen", r.S), app("vlen", x)))
+		s.assume(eq(app("clean", r.S), app("clean", x)))
+		s.c.declare("toLower", "(declare-fun toLower (Str) Str)")
+		s.assume(eq(r.S, app("toLower", x)))
+		return []Val{r}
+	}
+	L["strconv.Itoa"] = func(s *State, site ssa.Instruction, a []Val) []Val {
+		s.used("strconv.Itoa(n): n >= 0 gives a non-empty digit string; always clean, newline-free")
+		r := s.freshStr("itoa")
+		s.c.declare("itoa", "(declare-fun itoa (Int) Str)")
+		s.assume(eq(r.S, app("itoa", a[0].S)))
+		s.assume(implies(app("<=", "0", a[0].S), and(app("digits", r.S), app(">=", app("blen", r.S), "1"))))
+		s.assume(and(app("clean", r.S), app("noNL", r.S), app("noCTL", r.S)))
+		s.assume(eq(app("vlen", r.S), app("blen", r.S)))
+		return []Val{r}
+	}
+	L["strconv.Atoi"] = func(s *State, site ssa.Instruction, a []Val) []Val {
+		s.used("strconv.Atoi(s): succeeds with a non-negative result for 1..18 digits; otherwise unconstrained")
+		r := s.freshVal(intT, "atoi")
+		errv, _ := s.newErr("atoi")
+		okc := and(app("digits", a[0].S), app("<=", "1", app("blen", a[0].S)), app("<=", app("blen", a[0].S), "18"))
+		isNil := s.c.freshConst("atoiok", sBool)
+		s.assume(implies(okc, isNil))
+		s.assume(implies(isNil, app("<=", "0", r.S)))
+		e := Val{T: errorT, S: s.define("atoierr", sIface, ite(isNil, "nilI", errv.S))}
+		return []Val{r, e}
+	}
+	L["strconv.ParseUint"] = func(s *State, site ssa.Instruction, a []Val) []Val {
+		s.used("strconv.ParseUint(s, 16, 0): on success 0 <= v < 16^blen(s) (stated for blen(s) <= 2)")
+		r := s.freshVal(a[1].T, "parseuint")
+		r.T = uint64T
+		s.assume(app("<=", "0", r.S))
+		errv, _ := s.newErr("parseuint")
+		isNil := s.c.freshConst("puok", sBool)
+		if a[1].S == "16" {
+			s.assume(implies(and(isNil, eq(app("blen", a[0].S), "2")), app("<", r.S, "256")))
+			s.assume(implies(and(isNil, eq(app("blen", a[0].S), "1")), app("<", r.S, "16")))
+		}
+		s.assume(implies(not(isNil), eq(r.S, "0")))
+		e := Val{T: errorT, S: s.define("puerr", sIface, ite(isNil, "nilI", errv.S))}
+		return []Val{r, e}
+	}
+	L["unicode.IsControl"] = func(s *State, site ssa.Instruction, a []Val) []Val {
+		s.used("unicode.IsControl(r) == (r <= 0x1f || 0x7f <= r <= 0x9f)")
+		x := a[0].S
+		return []Val{{T: boolT, S: s.define("isctl", sBool, or(and(app("<=", "0", x), app("<=", x, "31")), and(app("<=", "127", x), app("<=", x, "159"))))}}
+	}
+	L["unicode.IsSpace"] = func(s *State, site ssa.Instruction, a []Val) []Val {
+		s.used("unicode.IsSpace table")
+		s.c.declare("isSpace", "(define-fun isSpace ((r Int)) Bool (or (and (<= 9 r) (<= r 13)) (= r 32) (= r 133) (= r 160) (= r 5760) (and (<= 8192 r) (<= r 8202)) (= r 8232) (= r 8233) (= r 8239) (= r 8287) (= r 12288)))")
+		return []Val{{T: boolT, S: s.define("issp", sBool, app("isSpace", a[0].S))}}
+	}
+	L["math.Trunc"] = func(s *State, site ssa.Instruction, a []Val) []Val {
+		return []Val{{T: a[0].T, S: s.define("trunc", sF64, app("fp.roundToIntegral", "RTZ", a[0].S))}}
+	}
+	L["strings.NewReader"] = func(s *State, site ssa.Instruction, a []Val) []Val {
+		r := s.newRef()
+		s.c.declare("readerOf", "(declare-fun readerOf (Int) Str)")
+		s.assume(eq(app("readerOf", r), a[0].S))
+		var t = a[0].T
+		if c, ok := site.(ssa.CallInstruction); ok {
+			t = c.Common().Signature().Results().At(0).Type()
+		}
+		return []Val{{T: t, S: r}}
+	}
+}
+
+var strSliceT = types.NewSlice(strT)
+var uint64T = types.Typ[types.Uint64]
